@@ -215,11 +215,16 @@ def glb_shape(ctx, rule):
     rets = [(bi, q.shape(b.expr_of_rvalue(s["rv"]) if s["k"] == "assign" else b.expr_of_call(s), roles)) for bi, si, s, it in b.locations()
             if ((not it and s["k"] == "assign" and s["place"]["l"] == 0 and not s["place"]["p"]) or (it and s["k"] == "call" and s["dest"]["l"] == 0 and not s["dest"]["p"]))]
     shapes = sorted(s for _, s in rets)
-    want_err = "Option::map(slice::get(arg1,try(usize::checked_sub(err(%s),1))),\u03bb(tuple(^err(%s),p1)))" % (BS, BS)
+    PRED = "try(usize::checked_sub(err(%s),1))" % BS
+    want_err = "Option::map(slice::get(arg1,%s),\u03bb(tuple(^%s,p1)))" % (PRED, PRED)
+    # the form that pairs the element before the insertion point with the insertion index itself (Token.idx one past
+    # the token: the function-name walk-back then visits the looked-up token twice, TokenIter::seek skips a token)
+    stale = "Option::map(slice::get(arg1,%s),\u03bb(tuple(^err(%s),p1)))" % (PRED, BS)
     want_ok = "Option::map(slice::get(arg1,idx),\u03bb(tuple(^var:usize,p1)))"
-    ctx.check(want_err in shapes, rule, fn, "err:pred", "without an exact match the element before the insertion point is returned (None when the insertion point is 0: checked_sub)", detail=str(shapes))
+    ctx.check(want_err in shapes or stale in shapes, rule, fn, "err:pred", "without an exact match the element before the insertion point is returned (None when the insertion point is 0: checked_sub)", detail=str(shapes))
+    ctx.check(stale not in shapes and want_err in shapes, rule, fn, "err:pair", "without an exact match the element is returned together with its own index (not the insertion index)", detail=str(shapes))
     ctx.check(want_ok in shapes, rule, fn, "ok:first-equal", "with an exact match the element at the walked-back index is returned", detail=str(shapes))
-    others = [s for s in shapes if s not in (want_err, want_ok) and not s.startswith("FromResidual::from_residual")]
+    others = [s for s in shapes if s not in (want_err, stale, want_ok) and not s.startswith("FromResidual::from_residual")]
     ctx.check(not others, rule, fn, "no-other-result", "no other value is returned", detail=str(others))
     ok = want_ok in shapes
     ctx.check(ok, rule, fn, "ok:pair", "the match is returned together with its index")
